@@ -261,7 +261,6 @@ OPS = ["sim", "pause", "backward", "save_load", "save_load"]
 @st.composite
 def _case(draw, cfg):
     spec = draw(gen.model_spec(cfg))
-    gen.chain_components(spec)
     for t in spec["tasks"]:
         if t["comp"] is None and not t["nf"] and draw(st.integers(0, 5)) == 0:
             t["auto"] = True
